@@ -55,36 +55,44 @@ template <unsigned NP, unsigned NO> static void sequence(const std::uint64_t (&p
   static unodb::detail::set_qsbr_per_thread_in_main_thread reg;
   static db_t d;
   model m{}; m.n = 0;
-  for (unsigned i = 0; i < NP; i++) { const std::uint8_t v = valbyte(pre[i]); const bool r = d.insert(pre[i], vv(&v, 1)); PROP(r, "C16: prelude insert succeeds"); add(m, pre[i]); }
+  for (unsigned i = 0; i < NP; i++) { const std::uint8_t v = valbyte(pre[i]); const bool r = d.insert(pre[i], vv(&v, 1)); PROP(r, "C16/C02: prelude insert succeeds"); add(m, pre[i]); }
   unodb::this_thread().quiescent();
   const std::uint64_t halt = in_range(1, MAXK);          // symbolic: where the scan visitors stop
   for (unsigned i = 0; i < NO; i++) {
     const opdesc& o = ops[i];
-    if (o.op == GET) { auto g = d.get(o.key); PROP(g.has_value() == has(m, o.key), "C16: assertion-enabled OLC index: get agrees with the map"); }
-    else if (o.op == INS) { const std::uint8_t v = valbyte(o.key); const bool r = d.insert(o.key, vv(&v, 1)); PROP(r == !has(m, o.key), "C16: assertion-enabled OLC index: insert agrees with the map"); if (r) add(m, o.key); }
-    else if (o.op == REM) { const bool r = d.remove(o.key); PROP(r == has(m, o.key), "C16: assertion-enabled OLC index: remove agrees with the map"); if (r) del(m, o.key); }
+    if (o.op == GET) { auto g = d.get(o.key); PROP(g.has_value() == has(m, o.key), "C16/C02: OLC index: get agrees with the map"); }
+    else if (o.op == INS) { const std::uint8_t v = valbyte(o.key); const bool r = d.insert(o.key, vv(&v, 1)); PROP(r == !has(m, o.key), "C16/C02: OLC index: insert agrees with the map"); if (r) add(m, o.key); }
+    else if (o.op == REM) { const bool r = d.remove(o.key); PROP(r == has(m, o.key), "C16/C02: OLC index: remove agrees with the map"); if (r) del(m, o.key); }
     else if (o.op == QUIESCE) { unodb::this_thread().quiescent(); }
     else {
-      unsigned n = 0;
-      auto fn = [&n, halt](const auto&) { n++; return n >= halt; };
-      unsigned exp = 0;
+      unsigned n = 0; std::uint64_t seen[MAXK + 1];
+      auto fn = [&n, &seen, halt](const auto& v) {
+        auto kv = v.get_key(); std::uint64_t key = 0; for (std::size_t b = 0; b < 8 && b < kv.size(); b++) key = (key << 8) | static_cast<std::uint8_t>(kv[b]);
+        if (n < MAXK) seen[n] = key;
+        n++; return n >= halt; };
+      const bool fwd = o.op == SCAN_F || o.op == FROM_F || (o.op == RANGE && o.key < o.key2);
+      unsigned exp = 0; std::uint64_t want[MAXK];
       for (unsigned j = 0; j < MAXK; j++) if (j < m.n) {
         const std::uint64_t k = m.k[j];
         bool in = true;
         if (o.op == FROM_F) in = k >= o.key; else if (o.op == FROM_R) in = k <= o.key;
         else if (o.op == RANGE) in = o.key < o.key2 ? (k >= o.key && k < o.key2) : (o.key > o.key2 ? (k <= o.key && k > o.key2) : false);
-        if (in) exp++;
+        if (!in) continue;
+        unsigned pos = exp;                                    // insertion sort into the expected visiting order
+        while (pos > 0 && (fwd ? want[pos - 1] > k : want[pos - 1] < k)) { want[pos] = want[pos - 1]; pos--; }
+        want[pos] = k; exp++;
       }
       if (exp > halt) exp = static_cast<unsigned>(halt);
       if (o.op == SCAN_F) d.scan(fn, true); else if (o.op == SCAN_R) d.scan(fn, false);
       else if (o.op == FROM_F) d.scan_from(o.key, fn, true); else if (o.op == FROM_R) d.scan_from(o.key, fn, false);
       else d.scan_range(o.key, o.key2, fn);
-      PROP(n == exp, "C16: assertion-enabled OLC index: the scan visits the entries of the interval until halted");
+      PROP(n == exp, "C16/C02: OLC index: the scan visits the entries of the interval until halted");
+      for (unsigned j = 0; j < MAXK; j++) if (j < exp && j < n) PROP(seen[j] == want[j], "C16/C02: OLC index: the scan visits exactly the entries of the interval in key order");
     }
   }
   // hand everything back: remove every key, then enough quiescent states for both epochs' requests to run (check_on_dealloc on every node)
-  for (unsigned i = 0; i < MAXK; i++) if (i < m.n) { const bool r = d.remove(m.k[i]); PROP(r, "C16: assertion-enabled OLC index: every remaining key can be removed"); }
-  PROP(d.empty(), "C16: assertion-enabled OLC index: empty after removing every key");
+  for (unsigned i = 0; i < MAXK; i++) if (i < m.n) { const bool r = d.remove(m.k[i]); PROP(r, "C16/C02: OLC index: every remaining key can be removed"); }
+  PROP(d.empty(), "C16/C02: OLC index: empty after removing every key");
   unodb::this_thread().quiescent(); unodb::this_thread().quiescent(); unodb::this_thread().quiescent();
   OBSERVE(m.n); OBSERVE(halt);
   WITNESS();
@@ -108,3 +116,10 @@ DSEQ(d_deep_remove, T_three, {REM, 0x010010, 0}, {GET, 0x010020, 0}, {REM, 0x000
 DSEQ(d_deep_get_insert, T_three, {GET, 0x010010, 0}, {INS, 0x010030, 0}, {GET, 0x010030, 0}, {REM, 0x000110, 0})
 DSEQ(d_deep_miss, T_three, {REM, 0x010011, 0}, {GET, 0x020000, 0}, {INS, 0x010010, 0}, {REM, 0x0000FF, 0})
 DSEQ(d_deep_scan, T_three, {FROM_F, 0x000015, 0}, {REM, 0x000020, 0}, {SCAN_R, 0, 0}, {REM, 0x010020, 0})
+// a bound that diverges INSIDE the compressed key prefix of an inner node - at the root and below it - on either side, both directions
+static const std::uint64_t T_pfx[] = {0x100, 0x101, 0x102};
+static const std::uint64_t T_pfx2[] = {0x0503000000000001ULL, 0x0503000000000002ULL, 0x0600000000000000ULL, 0x0109000000000001ULL, 0x0109000000000002ULL};
+DSEQ(d_pfx_root, T_pfx, {FROM_R, 0x5, 0}, {FROM_F, 0x5, 0}, {FROM_R, 0x200, 0}, {FROM_F, 0x200, 0}, {RANGE, 0x5, 0x200}, {RANGE, 0x200, 0x5}, {REM, 0x101, 0})
+DSEQ(d_pfx_below_lo, T_pfx2, {FROM_F, 0x0502000000000000ULL, 0}, {FROM_R, 0x0502000000000000ULL, 0}, {FROM_F, 0x0108000000000000ULL, 0}, {FROM_R, 0x0108000000000000ULL, 0}, {REM, 0x0503000000000001ULL, 0})
+DSEQ(d_pfx_below_hi, T_pfx2, {FROM_F, 0x0504000000000000ULL, 0}, {FROM_R, 0x0504000000000000ULL, 0}, {FROM_F, 0x010A000000000000ULL, 0}, {FROM_R, 0x010A000000000000ULL, 0}, {REM, 0x0109000000000002ULL, 0})
+DSEQ(d_pfx_below_range, T_pfx2, {RANGE, 0x0108000000000000ULL, 0x0504000000000000ULL}, {RANGE, 0x0504000000000000ULL, 0x0108000000000000ULL}, {RANGE, 0x010A000000000000ULL, 0x0502000000000000ULL}, {RANGE, 0x0502000000000000ULL, 0x010A000000000000ULL})
